@@ -96,3 +96,9 @@ claim("C25", "exploration",
       "Generated models with unary/n-ary operators, 1- and 2-argument calls, der, literals (incl. strings with XML metacharacters and signed numbers), dotted names and every variability are translated by the real XML generator; the output must be well-formed, contain one component per flat symbol with name/builtin/variability/literal start and value, and one equal element per flat equation whose element tree matches the flat expression node for node and operand for operand, in order.",
       "the flat model is tree.flatten of a fresh parse; schema validation impossible offline",
       "DESIGN.md section 4, C25")
+
+claim("C26", "exploration",
+      "outcome monitor on tools.compiler.main in one subprocess per invocation against the error count implied by the generated scenario",
+      "Generated stage-pure invocations (usage errors, files with syntax errors, failing models of three kinds under no target / sympy / casadi, argparse errors, empty directories, success) run the real main() in a subprocess that reports whether it returned, called sys.exit or let an exception escape; the outcome must equal the scenario's error count, and for several -m the joint count must equal the sum of the models alone.",
+      "counts for invocations mixing error stages are not defined by the property and only compared with each other",
+      "DESIGN.md section 4, C26")
